@@ -6,7 +6,11 @@
 (* vertices lie on the curve (within the fine polyline's own error) in      *)
 (* parameter order, and which -- taken from the curve's true starting       *)
 (* point given by the PathSem cursor -- deviates from the curve by at most  *)
-(* 8 x tolerance.  Coordinates are in 1/1024 px.                            *)
+(* 8 x tolerance.  A subpath that begins with a curve (no current point)    *)
+(* starts at the curve's first control point, and the output keeps that     *)
+(* start as a MoveTo in front of the run - the only way "filling the        *)
+(* flattened path agrees with the original" can hold for it.                *)
+(* Coordinates are in 1/1024 px.                                            *)
 EXTENDS Curve
 
 Identity1 == [m |-> <<1, 0, 0, 1, 0, 0>>, mden |-> 1]
@@ -51,13 +55,20 @@ Match(ins, outs, cs, den, tol8) ==
        ELSE IF Kind(op) = "Z" THEN
           IF outs # <<>> /\ outs[1][1] = "Z" THEN Match(Tail(ins), Tail(outs), CursorAfter(cs, op), den, tol8)
           ELSE "close-not-copied"
+       ELSE IF cs.cur = <<>> /\ ~(outs # <<>> /\ outs[1][1] = "M" /\ OutPt(outs[1]) = Scaled(StartOf(cs, op), den)) THEN
+          \* a subpath begun by a curve starts at the curve's first control point; the output can only
+          \* say so with a MoveTo there (without it, filling the output loses the area next to the start:
+          \* MC_Cursor.FlatFillAgree, repaired by cad0158)
+          "curve-start-lost"
        ELSE \* a curve: some prefix of the output is its run
           LET endp == Scaled(EndPoint(op), den)
               S == StartOf(cs, op)
-              cands == {n \in 1..Len(outs) : /\ \A k \in 1..n : outs[k][1] = "L"
-                                             /\ OutPt(outs[n]) = endp}
-              good == {n \in cands : RunOK(op, S, den, SubSeq(outs, 1, n), tol8)}
-              done == {n \in good : Match(Tail(ins), SubSeq(outs, n + 1, Len(outs)), CursorAfter(cs, op), den, tol8) = "ok"}
+              outs0 == outs
+              outs1 == IF cs.cur = <<>> THEN Tail(outs0) ELSE outs0
+              cands == {n \in 1..Len(outs1) : /\ \A k \in 1..n : outs1[k][1] = "L"
+                                             /\ OutPt(outs1[n]) = endp}
+              good == {n \in cands : RunOK(op, S, den, SubSeq(outs1, 1, n), tol8)}
+              done == {n \in good : Match(Tail(ins), SubSeq(outs1, n + 1, Len(outs1)), CursorAfter(cs, op), den, tol8) = "ok"}
           IN IF cands = {} THEN "curve-does-not-end-at-end-point"
              ELSE IF good = {} THEN "curve-run-off-curve"
              ELSE IF done = {} THEN "rest-mismatch" ELSE "ok"
